@@ -56,7 +56,7 @@ Print Assumptions C04_timeout_refuted.
    settled state in which the connection is subscribed with the NEW generation. *)
 Definition o_pj := mkOpts true true.
 Definition stale_unsub_schedule : list label :=
-  [LSpawn OConnect] ++ rep 8 (LStep 0 true) ++
+  [LSpawn OConnect] ++ rep 9 (LStep 0 true) ++
   [LSpawn (OSubCli 0 o_pj)] ++ rep 11 (LStep 2 true) ++       (* generation 1 established *)
   [LSpawn (OUnsubCli 0); LStep 4 true] ++                     (* U1 snapshots generation 1 *)
   [LSpawn (OUnsubCli 0)] ++ rep 6 (LStep 6 true) ++           (* U2 removes generation 1 completely *)
